@@ -463,7 +463,10 @@ func gen(a vh.Args) {
 	for _, c := range bg {
 		emit(fmt.Sprintf("BG %d %d %s", r.U64()>>1, c[0], intsStr(c[1:])))
 	}
-	// compression chain (monitor only)
+	// compression chain (monitor only): the PATTERN of Write sizes is the dimension, for
+	// every compression type: sessions then image, many small, small-then-huge,
+	// huge-then-small, around the 64 KB snappy frame, across the 2 MB block
+	g := func(n int) string { return fmt.Sprintf("g %d %d %d", r.U64()>>1, n, r.Intn(3)) }
 	for _, comp := range []int{0, 1} {
 		for _, n := range []int{0, 1, 40, 700} {
 			p := r.Bytes(n)
@@ -476,6 +479,45 @@ func gen(a vh.Args) {
 			for _, s := range segment(r, p) {
 				ops = append(ops, "w "+vh.Hex(s))
 			}
+			emit(fmt.Sprintf("CZ %d | %s", comp, strings.Join(ops, " ; ")))
+		}
+		pats := [][]string{
+			{"s", g(100000)},                                   // session table, then a huge image
+			{g(100000), "s", g(7)},                             // huge then small
+			{"s", g(65535), g(3), g(65536), g(5), g(65537), g(1)}, // around the frame size
+			{g(65536)},
+			{g(10), g(65536), g(65536), g(10)},
+			{"s", g(3), g(bsz + 70000), g(5)}, // across the block size
+		}
+		var small []string
+		for i := 0; i < 150; i++ {
+			small = append(small, g(1+r.Intn(300)))
+		}
+		pats = append(pats, append(append([]string{"s"}, small...), g(70000+r.Intn(100000)), g(2)))
+		nrand := 4
+		if a.Tier == "thorough" {
+			nrand = 60
+			pats = append(pats, []string{"s", g(2*bsz + 5), g(65536), g(1)}, []string{g(bsz - 1), g(bsz + 1), g(65537)})
+		}
+		for i := 0; i < nrand; i++ {
+			var ops []string
+			for k := 0; k < 2+r.Intn(7); k++ {
+				switch r.Intn(6) {
+				case 0:
+					ops = append(ops, "s")
+				case 1:
+					ops = append(ops, g(65535+r.Intn(3)))
+				case 2:
+					ops = append(ops, g(65536+r.Intn(200000)))
+				case 3:
+					ops = append(ops, g(r.Intn(65536)))
+				default:
+					ops = append(ops, g(r.Intn(200)))
+				}
+			}
+			pats = append(pats, ops)
+		}
+		for _, ops := range pats {
 			emit(fmt.Sprintf("CZ %d | %s", comp, strings.Join(ops, " ; ")))
 		}
 	}
